@@ -57,6 +57,10 @@ package chainexchange
 //@     before[every_prefix_is_visited_longest_first] i == prev(i) - 1 && prev(i) >= 0 && prev(i) < len(allPrefixes)
 //@   loop 1
 //@     invariant i < len(allPrefixes)
+//@   loop 1
+//@     invariant i < len(allPrefixes)
+//@   at return 0
+//@     before[stops_only_after_the_last_prefix_or_on_cancellation] dominatedBy(AllPrefixes, 1) && (i < 0 || res(Err, 1) != nil)
 
 // Lookup: wanted first, then promotion from discovered, else a placeholder that marks the key as wanted.
 //@ func (*PubSubChainExchange).GetChainByInstance
